@@ -1012,4 +1012,98 @@ example : queryParams (ascii "/a?x=1&y=2&x=3&z") = [(ascii "x", ascii "3"), (asc
     queryParams (ascii "/a") = [] ∧ queryParams (ascii "/a?") = [] ∧
     queryParams (ascii "/a?x=%20+?&y") = [(ascii "x", ascii "%20+?")] := by decide
 
+/-! ## Server with the upgrade hold (FC18f): what follows an Upgrade request is not framed as HTTP
+
+`handleIncomingData` since FC18f is `Srv.connDataU` (`Model/HttpServerConn.lean`).  `handleIncomingData`/`srvFeed`/`ioStep`/
+`connData`/`crun` of the sections above are that function for passes in which no Upgrade request is extracted
+(`U0_pass_without_upgrade_is_http_only`); the statements below hold for EVERY run of the function as it is. -/
+
+open Iora.Http.Srv in
+/-- **S8U (what is extracted is the greedy framing of a contiguous prefix of the TRUE stream - every schedule, every oracle).**
+For EVERY interleaving of reads (any segmentation, any total length, reads that trip the cap, arbitrary free queue slots),
+worker runs, close callbacks - and therefore every way upgrade holds are set and released: the requests the I/O thread cuts out
+of the stream, in order, are a greedy chain of the concatenated input from offset 0: the first is what the extractor yields at
+offset 0, each next one is what it yields right behind the previous one, up to some offset `o'`.  Nothing is skipped, nothing
+is framed twice, no request is assembled across a dropped read, and bytes the server never frames (behind a close, behind an
+Upgrade request whose hold is never released) are a SUFFIX of the input. -/
+theorem S8U_extraction_is_greedy_chain (ops : List COp) :
+    ∃ o', chainTo (segsOf ops).flatten 0 (extracted (crunU {} ops).1) o' := by
+  have := crunU_chain ops {} [] 0 (Nat.le_refl _) (fun _ => rfl)
+  simpa using this
+
+open Iora.Http.Srv in
+/-- **U1 (the hold).** While an Upgrade request of the session is being processed (`_upgradePending`), a read is never scanned:
+nothing is extracted, nothing is dispatched. -/
+theorem U1_hold_extracts_nothing (c : ConnU) (seg : Bytes) (slots : Nat) (h : c.hold = true) :
+    extracted (connDataU c seg slots).2.1 = [] := connDataU_hold c seg slots h
+
+open Iora.Http.Srv in
+/-- **U1b (the hold is bounded and keeps arrival order).** A held read is appended behind what is already stored - unless it would
+exceed `MAX_BUFFER_SIZE`: then the read is dropped, the session is forgotten and closed (`rejectSession`). -/
+theorem U1_hold_appends_or_rejects (c : ConnU) (seg : Bytes) (slots : Nat) (h : c.hold = true) (ha : c.sess.alive = true) :
+    (c.sess.buffer.length + seg.length ≤ Gen.Http.serverMaxBufferSize →
+      (connDataU c seg slots).1.sess = { buffer := c.sess.buffer ++ seg, alive := true } ∧ (connDataU c seg slots).1.hold = true) ∧
+    (c.sess.buffer.length + seg.length > Gen.Http.serverMaxBufferSize →
+      (connDataU c seg slots).1.sess.alive = false ∧ (connDataU c seg slots).2.1 = [.ioClose]) := by
+  constructor
+  · intro hle
+    have : ¬ (c.sess.buffer.length + seg.length > Gen.Http.serverMaxBufferSize) := by omega
+    unfold connDataU
+    simp [h, ha, this]
+  · intro hgt
+    unfold connDataU
+    simp [h, ha, hgt]
+
+open Iora.Http.Srv in
+/-- **U2 (the request loop stops behind an Upgrade request).** If the request at the front of the buffer carries an Upgrade
+field, the pass extracts exactly that request and leaves EVERYTHING behind it in the buffer, unscanned - even complete
+requests, even bytes containing CR LF CR LF. -/
+theorem U2_pass_stops_behind_upgrade (f : Nat) (buf raw : Bytes) (n : Nat) (he : extractOne buf = .request raw n)
+    (hu : hasUpgrade buf = true) : drainRawU (f + 1) buf = ([raw], false, buf.drop n, true) := by
+  have hn := ((extractOne_spec buf [] _ he (by simp)).2 raw n rfl).1
+  have hn0 : n ≠ 0 := by omega
+  simp [drainRawU, he, hn0, hu]
+
+open Iora.Http.Srv in
+/-- **U0 (without an Upgrade request the function is the HTTP-only one).** A pass of a session without hold that does not stop
+behind an Upgrade request extracts, closes and keeps exactly what `ioStep` does - the function S1-S9 above are about; with
+enough free queue slots the session afterwards is `ioStep`'s too. -/
+theorem U0_pass_without_upgrade_is_http_only (c : ConnU) (seg : Bytes) (slots : Nat) (hh : c.hold = false)
+    (hs : (drainRawU ((c.sess.buffer ++ seg).length + 1) (c.sess.buffer ++ seg)).2.2.2 = false) :
+    extracted (connDataU c seg slots).2.1 = (ioStep c.sess seg).2.1 ∧
+    ((routeU (tagLast (ioStep c.sess seg).2.1 false) slots).2.2.2 = false → (connDataU c seg slots).1.sess = (ioStep c.sess seg).1) ∧
+    (connDataU c seg slots).1.hold = false := by
+  have hd := drainRawU_no_stop _ _ hs
+  unfold connDataU ioStep
+  simp only [hh, Bool.false_eq_true, ↓reduceIte]
+  split
+  · simp [extracted, hh]
+  · split
+    · simp [extracted, hh]
+    · simp only [hd, hs, extracted_append, routeU_extracted, tagLast_fst, Bool.false_and]
+      refine ⟨by split <;> simp [extracted], ?_, trivial⟩
+      intro hr
+      simp only [List.length_append] at hr
+      simp [hr]
+
+/-- **Gen conformance (upgrade hold).** The statements of `handleIncomingData` that mention `_upgradePending` / `haveUpgrade`, the
+`break` that is the whole body of the last `if (haveUpgrade)` of the request loop, and the erasures of `handleSessionClosed` are
+the ones `connDataU` / `connClosedU` were written from. -/
+theorem gen_upgrade_hold : Gen.Http.serverUpgradeHold = Srv.upgradeHoldModelled ∧ Gen.Http.serverUpgradeBreak = true ∧
+    Gen.Http.serverSessionClosed = Srv.sessionClosedModelled := by decide
+
+open Iora.Http.Srv in
+/-- non-vacuity: an Upgrade request and a pipelined GET in ONE read with the worker parked - only the Upgrade request is
+extracted and the hold is set; a later read (here a WebSocket-looking frame containing CR LF CR LF) is held, not framed; the
+worker releases the hold; the next read frames the GET (the plain server declined the upgrade) -/
+example :
+    let u := ascii "GET /ws HTTP/1.1\r\nHost: a\r\nUpgrade: websocket\r\n\r\n"
+    let g := ascii "GET / HTTP/1.1\r\nHost: a\r\n\r\n"
+    let r1 := crunU {} [.data (u ++ g) 9]
+    let r2 := crunU {} [.data (u ++ g) 9, .data g 9]
+    let r3 := crunU {} [.data (u ++ g) 9, .data g 9, .work, .data [] 9]
+    extracted r1.1 = [u] ∧ r1.2.hold = true ∧ r1.2.sess.buffer = g ∧
+    extracted r2.1 = [u] ∧ r2.2.sess.buffer = g ++ g ∧
+    extracted r3.1 = [u, g, g] ∧ r3.2.hold = false := by decide
+
 end Iora.C15
